@@ -5,6 +5,14 @@ Correspondence: `log_multiply`, `generate`, `check` of the real `ReedSolomon1294
 nothing with the module under test (shift-and-add multiplication modulo 0x11D, powers of alpha by
 repeated multiplication, syndromes by Horner, an encoder by polynomial long division by
 (x-a)(x-a^2)(x-a^3) built from the roots).
+
+Besides boundary / basis / forced-feedback / random messages the generators construct, with the same independent
+arithmetic (Gauss-Jordan over GF(2^8) on the systematic generator matrix: any nine symbols of a code word can be
+prescribed), the structured inputs random sampling never reaches: the kernel of the parity map (messages q(x)g(x),
+FEC field = bare mask), prescribed parity / FEC targets, minimum-weight code words, prescribed LFSR register
+mid-way (`algebraic_msgs`, `structured_words`).  `run_script` replays *histories* (generate / check / edit-in-place
+steps with bytes / bytearray / list / tuple / memoryview arguments) against the reference and verifies after every
+step that no object the caller holds has changed: generate and check must behave as functions of the octets.
 """
 import itertools
 import os
@@ -1019,7 +1027,7 @@ def run(ctx):
     # style, nor on what the caller later does with a returned word or with its own argument buffers.
     pool = [d for d, _, _ in alg]
     scripts = make_scripts(rng, all_masks, ctx.budget(240, 3000), pool)
-    scripts += [("many-held", long_script(rng, all_masks, 160 if not ctx.thorough() else 1500))]
+    scripts += [("many-held", long_script(rng, all_masks, 160 if not ctx.thorough() else 600))]
     if ctx.thorough():
         scripts += [("many-held", long_script(rng, all_masks, 300)) for _ in range(4)]
     nfail = 0
